@@ -230,7 +230,7 @@ func (d *DB) snapshot(prefix []byte) *iter {
 	return it
 }
 
-func (d *DB) Iterator() dbm.Iterator                { return d.snapshot(nil) }
+func (d *DB) Iterator() dbm.Iterator               { return d.snapshot(nil) }
 func (d *DB) IteratorPrefix(p []byte) dbm.Iterator { return d.snapshot(p) }
 func (d *DB) IteratorPrefixWithStart(prefix, start []byte, isReverse bool) dbm.Iterator {
 	it := d.snapshot(prefix)
